@@ -102,6 +102,7 @@ Soundness  == (done /\ ~S.fail) => Sound(sys, S.sl)
 \* the (object, axis) items of one pass commute, so the order of the object list cannot matter
 PassItemsCommute ==
     \A kind \in {"pos", "sfs", "shs"} : \A o1 \in Objs(sys), o2 \in Objs(sys), a1 \in Axes(sys), a2 \in Axes(sys) :
+        (o1 < o2 \/ (o1 = o2 /\ a1 < a2)) =>
         Item(kind, sys, Item(kind, sys, S, o1, a1), o2, a2) = Item(kind, sys, Item(kind, sys, S, o2, a2), o1, a1)
 \* slots are written once (except when the chaotic variant restarts from the initial state)
 WriteOnce == [][ phase' = phase => \A o \in Objs(sys), a \in Axes(sys) :
